@@ -413,18 +413,22 @@ def rule_pipeline(P) -> RuleResult:
     n0 = len(res.findings)
     ncases = 0
     visible = [i for i, n in enumerate(M.NAMES) if n is not None]
-    for distinct in (False, True):
+    for gi in (None, [], [0, 2]):
+      for distinct in (False, True):
         for limit in (None, 0, LIM):
             for spec in (None, [(1, False)]):
+                if gi is not None and (distinct, limit) not in ((False, None), (True, LIM)):
+                    continue        # aggregate queries: the pipeline is the same code; two corner combinations suffice
                 ncases += 1
                 nf = len(res.findings)
                 label = f'DISTINCT {"on" if distinct else "off"}, LIMIT {"absent" if limit is None else show(limit)}, ORDER BY {"present" if spec else "absent"}'
-                for p in _paths(P, fi, distinct=distinct, limit=limit, order_spec=spec):
+                for p in _paths(P, fi, distinct=distinct, limit=limit, order_spec=spec, group_indexes=gi):
                     if p.outcome != 'return' or not (isinstance(p.value, T) and p.value.op == 'tuple' and len(p.value.args) == 2):
                         res.fail(construct, 'shape', f'execute_select must return (columns, rows); got {p.outcome} `{show(p.value)[:60]}`', loc(fi))
                         continue
                     cols, rows = p.value.args
-                    label = f'DISTINCT {"on" if distinct else "off"}, LIMIT {"absent" if limit is None else show(limit)}, ORDER BY {"present" if spec else "absent"}'
+                    label = f'DISTINCT {"on" if distinct else "off"}, LIMIT {"absent" if limit is None else show(limit)}, ORDER BY {"present" if spec else "absent"}' + \
+                        ('' if gi is None else f', aggregate query grouped by {gi if gi else "nothing"}')
                     # columns: the visible targets, in order, with the type of their expression
                     want_cols = T('tuple', tuple(T('call', ('Column', (M.NAMES[i], Sym(f'DTYPE{i}')), ())) for i in visible))
                     if cols != want_cols:
@@ -434,6 +438,9 @@ def rule_pipeline(P) -> RuleResult:
                     v = rows
                     stages = []
                     lim = _peel(v, 'islice')
+                    if lim is not None and lim[1] == (None,) and limit is None:
+                        v = lim[0]              # islice(rows, None): every row
+                        lim = None
                     if lim is not None:
                         stages.append('LIMIT')
                         if lim[1] != (limit,):
@@ -487,6 +494,11 @@ def rule_pipeline(P) -> RuleResult:
                                  f'present', loc(fi))
                     if not spec and sorts:
                         res.fail(construct, 'sort-gate', f'{label}: rows are sorted without an ORDER BY: source order is lost', loc(fi))
+                    cut = [e for e in p.events if e[0] == 'mutate' and e[1] in ids and e[2] in ('delitem', 'pop', 'remove', 'clear')]
+                    if cut:
+                        res.fail(construct, 'order', f'{label}: computed rows are removed ({cut[0][2]} `{show(cut[0][3][0])[:60] if cut[0][3] else ""}`) '
+                                 f'before the projection and DISTINCT: LIMIT counts the rows that remain after DISTINCT, so cutting earlier leaves '
+                                 f'fewer than n rows', loc(fi))
                 if len(res.findings) == nf:
                     res.ok({'case': label, 'stages': 'list(limit(distinct(project(sorted rows)))) as requested'})
     if len(res.findings) == n0:
